@@ -1,5 +1,5 @@
 (* C08 — Bucketed allreduce is equivalent to per-tensor allreduce.  Statements only. *)
-From Coq Require Import List Arith ZArith Bool.
+From Coq Require Import List Arith ZArith Bool Lia.
 Import ListNotations.
 From KV Require Import Model.Bucket Proofs.BucketP.
 
@@ -59,3 +59,12 @@ Print Assumptions each_tensor_once.
 Print Assumptions flush_leaves_nothing.
 Print Assumptions capacity_and_keys_respected.
 Print Assumptions bucket_transparent.
+
+(* a capacity that exceeds the bytes of everything ever added behaves like any other such capacity:
+   the run depends on the capacity only through comparisons with partial sums of what was added *)
+Theorem brun_cap_irrelevant : forall cap cap2 ops,
+  ops_bytes ops <= cap -> ops_bytes ops <= cap2 -> brun cap [] ops = brun cap2 [] ops.
+Proof.
+  intros cap cap2 ops H1 H2. apply (brun_cap_irrelevant_l cap cap2 ops [] 0); [intros k; cbn; lia|lia|lia].
+Qed.
+Print Assumptions brun_cap_irrelevant.
